@@ -127,6 +127,10 @@ func (C07) Run(s any, c *core.Ctx) core.Outcome {
 			out.Violation = core.Violate("C07/write-error/"+fw.ErrOp, "after Reset: %v", fw.FirstErr)
 			return out
 		}
+		if an := e.PoolAnomalies(); len(an) > 0 {
+			out.Violation = core.Violate("C07/buffer-pool-misuse/reset", "%s", an[0])
+			return out
+		}
 		fileBytes = sink.Bytes()
 	case "rowgroup-buffer":
 		buf := sh.NewBuffer(sc.BufferKind)
